@@ -73,6 +73,17 @@ class Node:
         return len(self.items)
 
 
+class RootModel:
+    """user class of the ROOT rule written like the classes of contained rules: it keeps a `parent` attribute, which is None for the root"""
+
+    def __init__(self, items=None, parent=None):
+        self.items = items
+        self.parent = parent
+
+
+RootModel.__name__ = "Model"
+
+
 def parent_path(p):
     return p[:-1]
 
@@ -81,7 +92,7 @@ def mm(user):
     if user not in _S:
         from textx import metamodel_from_str
 
-        classes = {"sized": [Leaf, Node], "odd": [PLeaf, DNode], True: [Leaf], False: None}[user]
+        classes = {"sized": [Leaf, Node], "odd": [PLeaf, DNode], "rootparent": [RootModel, Leaf], True: [Leaf], False: None}[user]
         _S[user] = metamodel_from_str(trees.GRAMMAR, classes=classes)
     return _S[user]
 
@@ -136,7 +147,7 @@ def run_case(f, ref, user):
     # parent / get_model
     for p, o in objs.items():
         if p == ():
-            if hasattr(o, "parent"):
+            if getattr(o, "parent", None) is not None:  # a user class of the root rule may keep parent = None itself
                 bad.append(("root has a parent", p))
         else:
             if getattr(o, "parent", None) is not objs[p[:-1]]:
@@ -195,7 +206,7 @@ def work(arg):
         elif paths:
             refs += [(paths[-1], paths[0]), (paths[0], paths[-1])]
         for ref in refs:
-            for user in (False, True, "sized", "odd"):
+            for user in (False, True, "sized", "odd", "rootparent"):
                 cid = [f, ref, user]
                 try:
                     with watchdog(20):
